@@ -109,10 +109,18 @@ def run(ctx, chk):
                 return termeval.evaluate(ns, env, {"utf8d": T})
         raise AnalysisBroken("no path of the step function applies to state %d byte %d" % (s, b))
 
-    # ---- counting loop: find ACCEPT / REJECT constants --------------------
+    # ---- counting loop: decided by what each of its paths computes, not by its shape -------------------
+    # Every path through 0..2 complete iterations (and the failing third) is evaluated for every input it can be taken on:
+    # byte loads from the source stand for the input bytes, a call of the step function and every later read of the state cell
+    # stand for the state the (tabulated) step function yields, the length parameter for the input length.  Bytes are taken
+    # one representative per class of bytes that no fact of any path and no column of the step table tells apart.  The second
+    # iteration meets every reachable (state, byte) pair - every intermediate state is one byte away from the start state -
+    # so what holds for inputs of length <= 2 holds for the generic iteration.
     c = prog.fn("_cbor_unicode_codepoint_count")
-    X2 = P.Executor(prog, eff, loop_bound=2)
-    cpaths = X2.run("_cbor_unicode_codepoint_count")
+    DEC = f.name
+    import ownership as _Oc
+    X2 = P.Executor(prog, eff, loop_bound=2, inline=_Oc.static_callees(prog, eff, c.name))
+    cpaths = X2.run(c.name)
     chk.floor("C16.count", "paths of the counting loop (0..3 iterations)", len(cpaths), 10)
     status_i = c.param_index("status")
     src_i, len_i = c.param_index("source"), c.param_index("source_length")
@@ -120,83 +128,338 @@ def run(ctx, chk):
     uni = prog.enum("_cbor_unicode_status_error")
     OK = uni["_CBOR_UNICODE_OK"]
     status_off = prog.field_offset("_cbor_unicode_status", "status")
-    # constants compared with the step result
-    consts = []
+    cells = {cl.args[0] for pa in cpaths for cl in pa.calls(DEC)}
+    if len(cells) != 1:
+        raise AnalysisBroken("the counting routine hands %d different state cells to %s (expected one)" % (len(cells), DEC))
+    state_cell = next(iter(cells))
+    inits = set()
+    for pa in cpaths:
+        for e in pa.events:
+            if e.kind == "store" and e.args[0] == state_cell:
+                inits.add(e.args[1])
+                break
+            if e.kind == "call" and e.callee == DEC:
+                inits.add(None)
+                break
+    if len(inits) != 1 or None in inits or not P.is_const(next(iter(inits))):
+        raise AnalysisBroken("cannot identify the initial validator state (stored values: %s)" % sorted(map(repr, inits)))
+    ACCEPT = next(iter(inits))[1]
+    # the states reachable from the start state and the trap among them
+    reach, work_ = {ACCEPT}, [ACCEPT]
+    while work_:
+        s_ = work_.pop()
+        for b_ in range(256):
+            try:
+                n_ = step(s_, b_)
+            except termeval.OutOfBounds:
+                continue
+            if n_ not in reach:
+                reach.add(n_)
+                work_.append(n_)
+        if len(reach) > 64:
+            raise AnalysisBroken("the step function reaches more than 64 states")
+    traps = []
+    for s_ in reach:
+        try:
+            if s_ != ACCEPT and all(step(s_, b_) == s_ for b_ in range(256)):
+                traps.append(s_)
+        except termeval.OutOfBounds:
+            pass
+    if len(traps) != 1:
+        raise AnalysisBroken("the step function has %d trap states reachable from the start state (expected one: REJECT)" % len(traps))
+    REJECT = traps[0]
+    chk.extra["accept_state"], chk.extra["reject_state"] = ACCEPT, REJECT
+    chk.ob("C16.count", "validation starts in the state the reference calls 'at a scalar boundary'", True, where_c, fn=c.name, key="init",
+           nontrivial=False)
+
+    def src_off(ptr):
+        b_, o_ = P.ptr_key(ptr)
+        if b_ == ("arg", src_i):
+            return o_
+        if isinstance(b_, tuple) and b_[0] == "idx" and b_[2] == "i8" and len(b_[3]) == 1 and P.is_const(b_[3][0]):
+            inner = src_off(b_[1])
+            return None if inner is None else inner + b_[3][0][1] + o_
+        if isinstance(b_, tuple) and b_[0] == "cast":
+            return src_off(b_[3])
+        return None
+
+    def leaves(t, acc):
+        if not isinstance(t, tuple) or not t:
+            return acc
+        if t[0] in ("ld", "call", "arg", "phi"):
+            acc.add(t)
+            return acc
+        if t[0] == "c":
+            return acc
+        for x in t[1:]:
+            if isinstance(x, tuple):
+                leaves(x, acc)
+        return acc
+
+    # byte terms and the facts that speak about a byte alone
+    byte_terms = set()
+    for pa in cpaths:
+        for e in pa.events:
+            if e.kind == "load" and not P.is_const(e.res) and termeval.bits_of(e.ins.type) == 8 and src_off(e.args[0]) is not None:
+                byte_terms.add(e.res)
+    # the decoded scalar (second out-parameter of the step function).  A path may test it after a step that ended a sequence; the
+    # scalar then ranges over exactly the Unicode scalar values (the arithmetic that assembles it is not verified - trusted base).
+    # A test that no scalar value satisfies makes its path infeasible, one that all satisfy is vacuous, and one that tells scalar
+    # values apart makes the count depend on something other than well-formedness: a violation with a witness.
+    cp_cells = {cl.args[1] for pa in cpaths for cl in pa.calls(DEC)}
+    SCALARS = None
+    dropped, kept = set(), []
+    for k, pa in enumerate(cpaths):
+        sfacts = []
+        for t, truth, _ in pa.facts:
+            lv = leaves(t, set())
+            cl_ = {x for x in lv if x[0] == "ld" and x[1] in cp_cells}
+            if not cl_:
+                continue
+            if len(lv) != 1:
+                raise AnalysisBroken("a path of the counting routine compares the decoded scalar with another run-time quantity (%s): not decided" % DR.fmt_term(t))
+            sfacts.append((t, truth, next(iter(cl_))))
+        if not sfacts:
+            kept.append(k)
+            continue
+        if SCALARS is None:
+            SCALARS = list(range(0, 0xD800)) + list(range(0xE000, 0x110000))
+        leafs = {x for _, _, x in sfacts}
+        if len(leafs) != 1:
+            raise AnalysisBroken("a path of the counting routine tests the decoded scalar at two different points: not decided")
+        L_ = next(iter(leafs))
+        src_ = " and ".join("(bool(%s) == %s)" % (termeval.to_python(t, {L_: "x"}), truth) for t, truth, _ in sfacts)
+        fn_ = eval("lambda x: " + src_)
+        sat = [x for x in SCALARS if fn_(x)]
+        if not sat:
+            dropped.add(k)
+            continue
+        if len(sat) == len(SCALARS):
+            kept.append(k)
+            continue
+        unsat = next(x for x in SCALARS if not fn_(x))
+        chk.ob("C16.count", "path %d: the count does not depend on which scalar value a well-formed sequence encodes" % k, False, where_c, fn=c.name,
+               key="scalar:%d" % k, detail="the path is taken for U+%04X but not for U+%04X (%d of %d scalar values): text is counted or refused by "
+               "the value it encodes, not by its well-formedness" % (sat[0], unsat, len(sat), len(SCALARS)), path=pa.block_lines())
+        dropped.add(k)
+    scalar_leaf = lambda t: (t[0] == "ld" and t[1] in cp_cells)  # noqa: E731
+    templates = {}
     for pa in cpaths:
         for t, truth, _ in pa.facts:
-            if t[0] == "icmp" and t[1] == "eq" and isinstance(t[2], tuple) and t[2][0] == "call" and t[3][0] == "c":
-                if t[3][1] not in consts:
-                    consts.append(t[3][1])
-    if len(consts) != 2:
-        raise AnalysisBroken("counting loop compares the step result with %s (expected two constants)" % consts)
-    # ACCEPT is the one whose truth increments the count: decide from the single-iteration paths
-    ACCEPT = REJECT = None
-    for pa in cpaths:
-        calls = pa.calls("_cbor_unicode_decode")
-        if len(calls) == 1 and pa.ret == ("c", 1):
-            for t, truth, _ in pa.facts:
-                if t[0] == "icmp" and t[2] == calls[0].res and truth:
-                    ACCEPT = t[3][1]
-    if ACCEPT is None:
-        raise AnalysisBroken("cannot identify the ACCEPT constant (no one-iteration path returns 1)")
-    REJECT = [x for x in consts if x != ACCEPT][0]
-    chk.extra["accept_state"], chk.extra["reject_state"] = ACCEPT, REJECT
-    state_cell = None
-    nviol = 0
+            lv = leaves(t, set())
+            bl = lv & byte_terms
+            if not bl:
+                continue
+            if len(lv) != 1:
+                raise AnalysisBroken("a path of the counting routine compares an input byte with a run-time quantity (%s): not decided" % DR.fmt_term(t))
+            B = next(iter(bl))
+            templates.setdefault((repr(t).replace(repr(B), "B"),), (t, B))
+    sig = {}
+    for b_ in range(256):
+        col = []
+        for s_ in sorted(reach):
+            try:
+                col.append(step(s_, b_))
+            except termeval.OutOfBounds:
+                col.append(-1)
+        tv = tuple(bool(termeval.evaluate(t, {B: b_}, {"utf8d": T})) for (t, B) in templates.values())
+        sig.setdefault((tuple(col), tv), []).append(b_)
+    reps = sorted(v[0] for v in sig.values()) + sorted(v[-1] for v in sig.values() if len(v) > 1)
+    chk.extra["byte_classes"] = len(sig)
+
+    def run_path(pa, bs):
+        env = {("arg", len_i): len(bs)}
+        st_ = None
+        words = {}
+        for e in pa.events:
+            if e.kind == "store" and e.args[0] == state_cell:
+                st_ = termeval.evaluate(e.args[1], env, {"utf8d": T})
+            elif e.kind == "load":
+                j = src_off(e.args[0])
+                if j is None and isinstance(e.res, tuple) and e.res[0] == "ld":
+                    j = src_off(e.res[1])       # a local the bytes were block-copied into: the load reads the source through it
+                if j is not None:
+                    w_ = max(1, termeval.bits_of(e.ins.type) // 8)
+                    if j + w_ > len(bs):
+                        return "beyond"
+                    if not P.is_const(e.res):
+                        env[e.res] = int.from_bytes(bytes(bs[j:j + w_]), "little")
+                elif e.args[0] == state_cell and not P.is_const(e.res):
+                    env[e.res] = st_
+                elif e.args[0] in words and not P.is_const(e.res):
+                    env[e.res] = words[e.args[0]]
+            elif e.kind == "memcpy":
+                j = src_off(e.args[1])
+                if j is not None and P.is_const(e.args[2]) and e.args[2][1] <= 8:
+                    n_ = e.args[2][1]
+                    if j + n_ > len(bs):
+                        return "beyond"
+                    words[e.args[0]] = int.from_bytes(bytes(bs[j:j + n_]), "little")
+            elif e.kind == "call" and e.callee == DEC:
+                bv = termeval.evaluate(e.args[2], env, {"utf8d": T})
+                st_ = step(st_, bv)
+                env[e.res] = st_
+        for t, truth, _ in pa.facts:
+            lv_ = leaves(t, set())
+            if lv_ and all(scalar_leaf(x) for x in lv_):
+                continue        # decided above, for every scalar value
+            if bool(termeval.evaluate(t, env, {"utf8d": T})) != truth:
+                return None
+        r_ = pa.ret[1] if P.is_const(pa.ret) else termeval.evaluate(pa.ret, env, {"utf8d": T})
+        fs = pa.st.load(P.mkptr(("arg", status_i), status_off), "i32", None)
+        return (r_, fs[1] if P.is_const(fs) else None)
+
+    def reference(bs):
+        s_, n_ = ACCEPT, 0
+        for b_ in bs:
+            s_ = step(s_, b_)
+            if s_ == REJECT:
+                return (0, False)
+            if s_ == ACCEPT:
+                n_ += 1
+        return (n_, True) if s_ == ACCEPT else (0, False)
+
+    state_alias = {}
+    inputs = [()] + [(a,) for a in reps] + [(a, b_) for a in reps for b_ in reps]
+    per_path = {}
+    uncovered, multi, beyond = [], [], []
+
+    def judge(k, bs, r_):
+        rv, stv = r_
+        want, valid = reference(bs)
+        good = rv == want and (stv == OK) == valid
+        d = per_path.setdefault(k, [0, None])
+        d[0] += 1
+        if not good and d[1] is None:
+            d[1] = "input %s: returns %r with status %s; strict UTF-8 gives %d (%s)" % (
+                " ".join("%02X" % x for x in bs) or "(empty)", rv, "OK" if stv == OK else stv, want, "valid" if valid else "invalid")
+
+    for bs in inputs:
+        hits = []
+        for k, pa in enumerate(cpaths):
+            if k in dropped:
+                continue
+            try:
+                r_ = run_path(pa, bs)
+            except termeval.OutOfBounds:
+                r_ = None
+            if r_ == "beyond":
+                continue
+            if r_ is not None:
+                hits.append((k, r_))
+        if not hits:
+            uncovered.append(bs)
+            continue
+        if len(hits) > 1:
+            multi.append(bs)
+        judge(hits[0][0], bs, hits[0][1])
+    # paths no short input takes (the failing third byte, a fast path that needs a run of bytes): look for longer inputs that
+    # take them - every triple of class minima, then one byte followed or preceded by a run of another
+    one = sorted(v[0] for v in sig.values())
+    longer = [(a, b_, c_) for a in one for b_ in one for c_ in one]
+    for L_ in (4, 5, 8, 9, 10, 16, 17, 18):
+        longer += [(a,) + (b_,) * (L_ - 1) for a in one for b_ in one] + [(b_,) * (L_ - 1) + (a,) for a in one for b_ in one if a != b_]
     for k, pa in enumerate(cpaths):
-        calls = pa.calls("_cbor_unicode_decode")
-        truth = pa.st.truth
-        acc = rej = 0
-        for i, cl in enumerate(calls):
-            state_cell = cl.args[0]
-            # the byte passed is source[i], zero-extended
-            b = cl.args[2]
-            okb = (b[0] == "cast" and b[1] == "zext" and b[3][0] == "ld" and b[3][1][0] == "idx"
-                   and b[3][1][1] == ("arg", src_i) and b[3][1][3] == (("c", i),))
-            okg = truth.get(("icmp", "ult", ("c", i), ("arg", len_i))) is True
-            chk.ob("C16.count", "path %d call %d reads source[pos], pos < length" % (k, i), okb and okg, cl.ins.loc(), fn=c.name,
-                   key="read:%d:%d" % (k, i), detail="" if okb and okg else "byte argument %r / loop guard missing" % (b,))
-            if truth.get(("icmp", "eq", cl.res, ("c", ACCEPT))) is True:
-                acc += 1
-            if truth.get(("icmp", "eq", cl.res, ("c", REJECT))) is True:
-                rej += 1
-        # classify exit
-        status_store = None
-        for e in pa.events:
-            if e.kind == "memcpy" and P.ptr_key(e.args[0])[0] == ("arg", status_i):
-                status_store = pa.st.load(P.mkptr(("arg", status_i), status_off), "i32", None)
-        final_status = pa.st.load(P.mkptr(("arg", status_i), status_off), "i32", None)
-        is_err = final_status != ("c", OK)
-        final_state_ok = None
-        if state_cell is not None:
-            for t, tr in truth.items():
-                if t[0] == "icmp" and t[1] == "eq" and t[3] == ("c", ACCEPT) and t[2][0] == "ld" and t[2][1] == state_cell:
-                    final_state_ok = tr
-        if rej:
-            ok = is_err and pa.ret == ("c", 0)
-            chk.ob("C16.count", "path %d: REJECT result -> error exit" % k, ok, where_c, fn=c.name, key="rej:%d" % k,
-                   detail="" if ok else "a REJECT result returns %r with status %r" % (pa.ret, final_status))
-        elif is_err:
-            ok = pa.ret == ("c", 0) and (final_state_ok is False)
-            chk.ob("C16.count", "path %d: error exit returns 0, only for an unfinished sequence" % k, ok, where_c, fn=c.name,
-                   key="err:%d" % k, detail="" if ok else "error exit returns %r (final state test: %s)" % (pa.ret, final_state_ok))
-        else:
-            ok = pa.ret == ("c", acc) and (final_state_ok is True or not calls)
-            if not calls:
-                # zero iterations: the initial state must be ACCEPT itself
-                init = pa.st.truth
-                ok = pa.ret == ("c", 0)
-            chk.ob("C16.count", "path %d: returns the number of ACCEPT results (%d)" % (k, acc), ok, where_c, fn=c.name,
-                   key="cnt:%d" % k, detail="" if ok else "returns %r after %d ACCEPT results; final state accepted: %s" % (pa.ret, acc, final_state_ok))
-    # initial state constant
-    init_state = None
-    for pa in cpaths[:1]:
-        for e in pa.events:
-            if e.kind == "store" and state_cell is not None and e.args[0] == state_cell:
-                init_state = e.args[1]
+        if k in per_path or k in dropped:
+            continue
+        lenfacts = [(t, truth) for t, truth, _ in pa.facts if leaves(t, set()) == {("arg", len_i)}]
+        feas = {L_ for L_ in range(0, 24) if all(bool(termeval.evaluate(t, {("arg", len_i): L_}, {})) == truth for t, truth in lenfacts)}
+        found = 0
+        for bs in longer:
+            if len(bs) not in feas:
+                continue
+            try:
+                r_ = run_path(pa, bs)
+            except termeval.OutOfBounds:
+                r_ = None
+            if r_ is None or r_ == "beyond":
+                continue
+            judge(k, bs, r_)
+            found += 1
+            if found >= 24:
                 break
-    chk.ob("C16.count", "validation starts in the ACCEPT state", init_state == ("c", ACCEPT), where_c, fn=c.name,
-           detail="" if init_state == ("c", ACCEPT) else "initial state is %r" % (init_state,))
+    # bytes that are consumed without going through the step function (a fast path): wherever that happens, every validator
+    # state and byte value the path's own tests allow there must be one the step function would have left alone
+    nskip = 0
+    for k, pa in enumerate(cpaths):
+        if k in dropped:
+            continue
+        fed = set()
+        for cl in pa.calls(DEC):
+            for x in leaves(cl.args[2], set()):
+                if x in byte_terms:
+                    fed.add(x)
+        cur = None          # what is known about the validator state: ("c", v) or the term standing for it
+        seen_skip = set()
+        for e in pa.events:
+            if e.kind == "store" and e.args[0] == state_cell:
+                cur = e.args[1]
+            elif e.kind == "call" and e.callee == DEC:
+                cur = e.res
+            elif e.kind == "load" and e.args[0] == state_cell and not P.is_const(e.res) and cur is not None and not P.is_const(cur):
+                alias_ = e.res      # reads of the cell after a step stand for the step's result
+                state_alias.setdefault(k, {}).setdefault(cur, set()).add(alias_)
+            elif e.kind == "load" and not P.is_const(e.res):
+                j = src_off(e.args[0])
+                if j is None and isinstance(e.res, tuple) and e.res[0] == "ld":
+                    j = src_off(e.res[1])
+                if j is None or e.res in fed or e.res in seen_skip:
+                    continue
+                # is this value (a byte, or a word of bytes) handed to the step function later on this path?  then it is not skipped
+                seen_skip.add(e.res)
+                w_ = max(1, termeval.bits_of(e.ins.type) // 8)
+                # does the path move past it?  only then is it consumed
+                later = [src_off(e2.args[0]) for e2 in pa.events if e2.kind == "load" and src_off(e2.args[0]) is not None]
+                moved = any(o_ is not None and o_ >= j + w_ for o_ in later) or (P.is_const(pa.ret) and pa.st.load(P.mkptr(("arg", status_i), status_off), "i32", None) == ("c", OK))
+                if not moved:
+                    continue
+                nskip += 1
+                # candidate states
+                names = {cur} | state_alias.get(k, {}).get(cur, set()) if cur is not None and not P.is_const(cur) else set()
+                cands = []
+                for s_ in sorted(reach - {REJECT}):
+                    if P.is_const(cur):
+                        if s_ != cur[1]:
+                            continue
+                    else:
+                        envs = {n_: s_ for n_ in names}
+                        ok_s = True
+                        for t, truth, _ in pa.facts:
+                            lv_ = leaves(t, set())
+                            if lv_ and lv_ <= names:
+                                if bool(termeval.evaluate(t, envs, {"utf8d": T})) != truth:
+                                    ok_s = False
+                                    break
+                        if not ok_s:
+                            continue
+                    cands.append(s_)
+                bfacts = [(t, truth) for t, truth, _ in pa.facts if leaves(t, set()) == {e.res}]
+                bad_ = None
+                for b_ in range(256):
+                    val = int.from_bytes(bytes([b_] * w_), "little")
+                    if not all(bool(termeval.evaluate(t, {e.res: val}, {"utf8d": T})) == truth for t, truth in bfacts):
+                        continue
+                    for s_ in cands:
+                        n2 = step(s_, b_)
+                        if n2 != s_ or n2 != ACCEPT:
+                            bad_ = "in validator state %d a byte 0x%02X is stepped over, but the step function takes it to state %d%s" % (
+                                s_, b_, n2, " (REJECT)" if n2 == REJECT else "")
+                            break
+                    if bad_:
+                        break
+                chk.ob("C16.count", "path %d: the byte(s) at offset %d consumed without a validation step are ones the step function leaves in the accepting state"
+                       % (k, j), bad_ is None, e.ins.loc(), fn=c.name, key="skip:%d:%d" % (k, j), detail=bad_ or "",
+                       path=pa.block_lines() if bad_ else None)
+    for k in sorted(per_path):
+        n_, bad_ = per_path[k]
+        chk.ob("C16.count", "path %d: for each of the %d class-representative inputs examined that take it, result and status are those of strict UTF-8"
+               % (k, n_), bad_ is None, where_c, fn=c.name, key="path:%d" % k, detail=bad_ or "",
+               path=cpaths[k].block_lines() if bad_ else None)
+    okcov = not uncovered and not multi
+    chk.ob("C16.count", "every input of length <= 2 (%d representatives of %d byte classes) takes exactly one path" % (len(inputs), len(sig)), okcov,
+           where_c, fn=c.name, key="cover", detail="" if okcov else "no path for %s; several for %s" % (
+               [" ".join("%02X" % x for x in bs) for bs in uncovered[:3]], [" ".join("%02X" % x for x in bs) for bs in multi[:3]]))
+    chk.floor("C16.count", "paths taken by some input", len(per_path), 6)
 
     # ---- product construction ---------------------------------------------------
     seen = {(ACCEPT, "start")}
